@@ -398,6 +398,20 @@ func errNilGuards(f *ssa.Function, call *ssa.Call) []kit.Guard {
 		if !types.Identical(v.Type(), types.Universe.Lookup("error").Type()) {
 			return false, false
 		}
+		// `err := errors.Wrap(f(), "…"); if err != nil`: pkg/errors wrappers are nil exactly when
+		// their argument is
+		for {
+			w, ok := v.(*ssa.Call)
+			if !ok || w == call || len(w.Call.Args) == 0 {
+				break
+			}
+			switch kit.CallID(w) {
+			case "github.com/pkg/errors.Wrap", "github.com/pkg/errors.Wrapf", "github.com/pkg/errors.WithStack", "github.com/pkg/errors.WithMessage":
+				v = w.Call.Args[0]
+				continue
+			}
+			break
+		}
 		switch x := v.(type) {
 		case *ssa.Call:
 			if x != call {
